@@ -418,6 +418,7 @@ GRID_THETAS = {
     'frank+': [0.5, 3.0, 9.0, 18.2],
     'frank-': [-0.5, -3.0, -9.0, -18.2],
 }
+EDGE_THETAS = {'clayton': [9e-6, 2e-6, 3e-4], 'gumbel': [1.0005]}
 GRID_PTS = [(0.2, 0.7), (0.5, 0.5), (0.9, 0.15), (0.03, 0.4), (0.6, 0.97), (0.99, 0.99), (0.01, 0.01), (0.99, 0.01),
             (1e-4, 1e-4), (1 - 1e-4, 1 - 1e-4), (1e-9, 0.5), (0.5, 1e-9)]
 CONF_PTS = [(0.2, 0.7), (0.5, 0.5), (0.9, 0.15), (0.03, 0.4), (0.6, 0.97), (0.95, 0.95), (0.99, 0.99), (0.01, 0.01), (0.99, 0.01)]
@@ -436,9 +437,15 @@ def try_replay(fam, name, model):
             cands.append((th, model.get('u', 0.5), model.get('v', 0.5)))
             for (a, b) in GRID_PTS:
                 cands.append((th, a, b))
+    # parameters close to the independence limit (branches specialised for tiny theta); only where the pinned code
+    # is itself accurate to the replay tolerance in float64
     for th in GRID_THETAS[fam]:
         for (a, b) in GRID_PTS:
             cands.append((th, a, b))
+    for th in EDGE_THETAS.get(fam, []):
+        for (a, b) in GRID_PTS:
+            if min(a, b) >= 0.01:
+                cands.append((th, a, b))
     extra = {k: model[k] for k in ('s', 't', 'theta1', 'theta2') if model and k in model}
     if name == 'theta ordering' and not extra:
         g = GRID_THETAS[fam]
